@@ -2179,6 +2179,23 @@ func (w *vpWorld) generate(o vpGenOpts) {
 			idents = append(idents, vpIdentity{typ: out.typ, name: out.name, group: out.group, reg: len(w.regs)})
 		}
 		w.regs = append(w.regs, reg)
+		// a twin: a second registration with exactly the same signature (same return types, same group, same
+		// dependencies) but its own function value - the two share code pointer AND signature, so anything that
+		// looks a constructor up by those (the analysis cache) must still call the right one (C04)
+		allGrouped := len(reg.outs) >= 2
+		for _, out := range reg.outs {
+			if out.group == "" {
+				allGrouped = false
+			}
+		}
+		if (reg.form == "multi" || reg.form == "ro") && allGrouped && rng.Intn(2) == 0 {
+			twin := &vpReg{idx: len(w.regs), life: reg.life, form: reg.form, useIn: reg.useIn, withErr: reg.withErr,
+				outs: append([]vpOut(nil), reg.outs...), deps: append([]vpDep(nil), reg.deps...)}
+			for _, out := range twin.outs {
+				idents = append(idents, vpIdentity{typ: out.typ, name: out.name, group: out.group, reg: len(w.regs)})
+			}
+			w.regs = append(w.regs, twin)
+		}
 	}
 	// seeded cycles: an earlier registration depends on an identity a later one produces
 	if o.defects && len(w.regs) >= 2 && len(idents) > 0 && rng.Intn(2) == 0 {
